@@ -37,8 +37,8 @@ def r10a(ck, fb):
         b = ck.body(fn, 'R10a')
         if not b:
             continue
-        ln = util.mut_calls_on_field(b, 'listener', re.escape(CL + 'notify') + '$')
-        sn = util.mut_calls_on_field(b, 'subscriber', re.escape(SB + 'notify') + '$')
+        ln = util.mut_calls_on_field(b, 'listener', re.escape(CL + 'notify') + '$', deep=1)
+        sn = util.mut_calls_on_field(b, 'subscriber', re.escape(SB + 'notify') + '$', deep=1)
         ck.require(len(ln) >= 1 and len(sn) >= 1, 'R10a', '%s:has-both-notifies' % fn.split('::')[-1], b.where(), 'listener.notify / subscriber.notify missing')
         sites = []
         for m in muts:
